@@ -497,7 +497,7 @@ class QRCode:
         """
         buff = io.BytesIO()
         self.save(buff, kind='svg', xmldecl=False, svgns=False, nl=False, **kw)
-        return buff.getvalue().decode(kw.get('encoding', 'utf-8'))
+        return buff.getvalue().decode(kw.get('encoding') or 'utf-8')
 
     def png_data_uri(self, **kw):
         """\
